@@ -142,7 +142,8 @@ def run(ctx):
     for r in range(inst['rounds']):
       want_p = [float(island.frac(x)) for x in exp[r]]
       got_p = rec['rounds'][r]
-      if c['exact']:
+      dy = all(island.is_pow2(x[1]) and abs(x[0]) < 2**22 for rr in exp[:r + 1] for x in rr)
+      if c['exact'] and dy:
         okp = all(np.float32(g) == np.float32(w) for g, w in zip(got_p, want_p))
       else:
         okp = np.allclose(got_p, want_p, rtol=1e-5, atol=1e-5)
